@@ -317,7 +317,10 @@ def coverage(results, cal, wall, workers, known_hits, fixed, reported, root, tho
         'observation_sibling_groups_in_ascending_name_order': {
             'groups': sum(g for g, s in sobs), 'ascending': sum(s for g, s in sobs),
             'note': 'not a gate: C16 asks for a fixed function of names and kinds, which byte-equality across arrival orders decides'},
-        'real_components': ['giscanner/scannermain.py:scanner_main (all of it except create_source_scanner)', 'transformer.py', 'maintransformer.py',
+        'real_components': ['giscanner/scannermain.py:scanner_main (all of it, create_source_scanner included when the C preprocessor runs: seam = %s)' % (
+                                'the C extension class only; sourcescanner.py and the gcc -E run through ccompiler.py are real' if cal.get('low_seam') else
+                                'create_source_scanner (no usable C preprocessor found)'),
+                            'sourcescanner.py (Python side)', 'transformer.py', 'maintransformer.py',
                             'annotationparser.py', 'introspectablepass.py', 'girwriter.py', 'xmlwriter.py', 'girparser.py', 'cachestore.py (real file system)', 'ast.py', 'message.py', 'utils.py'],
         'stub_components': ['C lexer/parser extension -> sim/cfront.py (calibrated)', 'pkg-config -> /bin/true',
                             'introspection binary -> script answering functions.txt from a table, run through the real --program subprocess path',
